@@ -220,7 +220,7 @@ def main(tier):
             procs.append((p, cfg, op, ap))
         for p, cfg, op, ap in procs:
             try:
-                outp, _ = p.communicate(timeout=1500 if tier == "quick" else 6 * 3600)
+                outp, _ = p.communicate(timeout=3600 if tier == "quick" else 6 * 3600)
             except subprocess.TimeoutExpired:
                 p.kill()
                 run.inconclusive_because(f"history driver {cfg['seed']} hit the wall-clock watchdog")
